@@ -6,8 +6,8 @@ Require Extraction.
 Require Import ExtrOcamlBasic.
 Extraction "../ocaml/gen/ex_c03.ml"
   sym_valid pk_valid hash_valid key_bits block_bits key_octets block_octets
-  seipd_plain seipd_encrypt seipd_decrypt pkesk_m pkesk_open pkcs5_pad pkcs5_unpad ecdh_param ecdh_kdf
-  rsa_decrypt_m pkesk_decrypt_sk pkesk_encrypt s2k_derive skesk_decrypt_sk skesk_encrypt_gen skesk_encrypt
+  seipd_plain seipd_encrypt seipd_decrypt pkesk_m pkesk_open pkcs5_pad pkcs5_unpad pkcs5_pad_to ecdh_unpad ecdh_param ecdh_kdf
+  rsa_decrypt_m pkesk_decrypt_sk pkesk_encrypt pkesk_encrypt_to s2k_derive skesk_decrypt_sk skesk_encrypt_gen skesk_encrypt
   decrypt_pass key_decrypt decrypt_with encrypt_to esk_packet msg_emit msg_parse packet seipd_body
-  rfc_pkesk_m rfc_seipd_plain rfc_param rfc_kdf rfc_pad8 rfc_wrapped_field
+  rfc_pkesk_m rfc_seipd_plain rfc_param rfc_kdf rfc_pad8 rfc_pad40 rfc_wrapped_field
   int_to_bytes bytes_to_int Z.add Z.mul.
